@@ -210,6 +210,21 @@ CHECKS['C08'] = dict(
     design_ref='DESIGN.md section 6, C08',
     technique='Coq proof (emission theorems on the endpoint model, SETUP-first and id theorems) + in-Coq trace correspondence of emitted frames with a real endpoint; per-stream acceptor as oracle')
 
+CHECKS['C01'] = dict(
+    text='Theorem (props/C01.v): for EVERY history of send_frame calls and sender steps that drains the queue, every fragment size >= 64 or '
+         'none, and EVERY chunking of the resulting byte stream, the complete frames the receiving pipeline (parser, reassembly cache) hands '
+         'to dispatch are, stream by stream, exactly the frames queued on that stream, in order, with type, stream, request-n, flags, '
+         'metadata and data intact - none lost, duplicated, merged across streams or moved to another stream; composed from the layer '
+         'theorems of C02-C05. Tied to the code by two REAL endpoints (client + server) joined by a harness-controlled link: random '
+         'concurrent mixes of the five interaction models from either side, payloads 0..420 bytes, fragment sizes none/64/100, '
+         'byte-stream framing re-chunked at random and message framing, late futures, paced publishers; per direction Coq checks '
+         'dispatched = receive(chunks read) and, per stream, = expected_rx(frames the real sender queued); plus the delivery oracle on '
+         'the recording applications (exactly once, byte for byte, in order, right interaction, right caller). Partial: dispatch from '
+         'complete frames to handlers/subscribers is covered by the Endpoint model theorems (C07-C12) and the oracle, not restated '
+         'as one theorem.',
+    design_ref='DESIGN.md section 6, C01',
+    technique='Coq proof (end-to-end pipeline theorem composed from the codec, fragmenter, send-queue, parser and cache theorems) + in-Coq correspondence with two real endpoints over a simulated link')
+
 NOT_YET = {}
 
 def main():
